@@ -64,7 +64,8 @@ ASSUMPTIONS = [
     "attributes of self; set-valued dict entries (d[k] being a set) are not typed as unordered",
     "call-graph closure resolves attribute calls by method name over the whole package (over-approximation)",
     "R19e explores histories of depth <= 3 with spin-free occupied requests; R19i models inspect.signature/bind/apply_defaults, "
-    "functools.wraps and property by reference implementations",
+    "functools.wraps and property by reference implementations; R19j models the expression as a list of tensor names "
+    "(rename_tensor renames every tensor of that name, atoms lists the names present) for seven configurations",
     "tensor-name typing: `.name` reads, names bound from them and derived tensor-name parameters; literals built by "
     "str.join/replace or read from files are not tracked",
 ]
